@@ -1964,12 +1964,14 @@ package gomatrixserverlib
 
 // VerifyAllEventSignatures: one verdict per event, in order (its loop is C06's VerifyEventSignatures per element)
 //@ func VerifyAllEventSignatures
-//@   property C14
+//@   property C14, C06
 //@   nosafety
 //@   purecallbacks
 //@   requires userIDForSender != nil
 //@   ensures one-verdict-per-event: len(result) == len(events)
+//@   calls VerifyEventSignatures@root every-event-is-verified-on-its-own: 0 <= idx(1) && idx(1) < len(events) && e == events[idx(1)] && verifier == root_verifier && userIDForSender == root_userIDForSender
 //@   loop 1: invariant 0 <= idx(1) && idx(1) <= len(events) && len(errors) == idx(1)
+//@   loop 1: step the-verdict-of-an-event-is-the-result-of-its-own-verification: ncalls(VerifyEventSignatures) == old(ncalls(VerifyEventSignatures)) + 1 && len(errors) == old(len(errors)) + 1 && errors[old(len(errors))] == ret(VerifyEventSignatures) && (forall j int :: 0 <= j && j < old(len(errors)) ==> errors[j] == old(errors[j]))
 //@   assigns nothing
 
 //@ func CheckStateResponse
@@ -2108,6 +2110,9 @@ package gomatrixserverlib
 //@   ensures recorded-under-its-own-key: result == nil ==> (tuple(event.Type(), *event.StateKey()) in a.events && a.events[tuple(event.Type(), *event.StateKey())] == event)
 //@   ensures other-keys-untouched: forall t string, s string :: (result != nil || !(t == event.Type() && s == *event.StateKey())) ==> ((tuple(t, s) in a.events) == old(tuple(t, s) in a.events) && get(a.events, tuple(t, s)) == old(get(a.events, tuple(t, s))))
 //@   ensures same-maps: a.events == old(a.events) && a.roomIDs == old(a.roomIDs)
+//@   ensures C07.the-room-of-every-added-event-is-recorded: result == nil ==> (event.RoomID().raw in a.roomIDs)
+//@   ensures C07.recorded-rooms-are-never-forgotten: forall id string :: old(id in a.roomIDs) ==> (id in a.roomIDs)
+//@   ensures C07.only-that-room-is-added: forall id string :: (id in a.roomIDs) ==> (old(id in a.roomIDs) || (result == nil && id == event.RoomID().raw))
 //@   assigns a.events[*], a.roomIDs[*]
 
 //@ func NewAuthEvents
@@ -2607,6 +2612,18 @@ package gomatrixserverlib
 //@   property C10, C11
 //@   nosafety
 //@   ensures unconflicted-state-is-re-applied-after-the-last-auth-pass: called(authAndApplyEvents) ==> ncalls(applyEvents) == after(authAndApplyEvents, ncalls(applyEvents)) + 1
+
+// Looking an event's closest mainline ancestor up never changes the mainline positions: the only write re-stores the
+// position just read under the same event ID (an event that is not on the mainline never gets a position).
+//@ func (*stateResolverV2).getFirstPowerLevelMainlineEvent$2
+//@   property C10, C11
+//@   nosafety
+//@   selfcallback
+//@   requires r != nil && r.powerLevelMainlinePos != nil
+//@   ensures mainline-positions-are-only-read: forall id string :: ((id in r.powerLevelMainlinePos) <==> old(id in r.powerLevelMainlinePos)) && r.powerLevelMainlinePos[id] == old(r.powerLevelMainlinePos[id])
+//@   loop 1: invariant 0 <= idx(1) && idx(1) <= len(event.AuthEventIDs())
+//@   loop 1: invariant mainline-positions-are-only-read: forall id string :: ((id in r.powerLevelMainlinePos) <==> old(id in r.powerLevelMainlinePos)) && r.powerLevelMainlinePos[id] == old(r.powerLevelMainlinePos[id])
+//@   assigns r.powerLevelMainlinePos[*]
 
 // The auth difference of v2 / v2.1: the union of the full auth chains of ALL state sets minus the intersection of
 // ALL of them (the running intersection is what is intersected further, starting from the first chain). The sets
